@@ -33,6 +33,21 @@ def seeded_variants():
     return out
 
 
+def refactoring_variants():
+    """Behaviour-preserving refactorings written by independent sub-agents (refactorings/<Cxx>-round<k>-r<n>.diff, each checked
+    by its author against the 39 tests and a behaviour digest): the check of the property the author was working next to must
+    stay silent on them. (All 20 checks are run on all of them by `python -m sa.eval_refactors /verif/refactorings '*.diff'`.)"""
+    out = []
+    for pth in sorted((VERIF / "refactorings").glob("C??-round*-r*.diff")):
+        prop = pth.name[:3]
+        what = "refactoring: " + pth.stem
+        md = pth.with_suffix(".md")
+        if md.exists():
+            what += " - " + md.read_text().strip().splitlines()[0][:60]
+        out.append(dict(id="R-" + pth.stem[4:], prop=prop, kind="preserve", what=what, patch=str(pth), edits=[]))
+    return out
+
+
 def run_patch(prop, patch):
     from .try_patch import scratch_with_patch
     try:
@@ -79,7 +94,7 @@ def run_variant(v):
 
 
 def run_all(props=None, jobs=16):
-    vs = [v for v in VARIANTS + seeded_variants() if props is None or v["prop"] in props]
+    vs = [v for v in VARIANTS + seeded_variants() + refactoring_variants() if props is None or v["prop"] in props]
     with cf.ThreadPoolExecutor(max_workers=jobs) as ex:
         return list(ex.map(run_variant, vs))
 
@@ -115,7 +130,7 @@ def main(argv):
         flag = "ok " if status == "ok" else status.upper()
         if status != "ok":
             bad += 1
-        print(f"[{flag:11s}] {v['id']:9s} {v['kind']:8s} {v.get('what', '')[:70]:70s} {text[:150] if status != 'ok' else ''}")
+        print(f"[{flag:11s}] {v['id']:12s} {v['kind']:8s} {v.get('what', '')[:70]:70s} {text[:150] if status != 'ok' else ''}")
     print(f"{len(res)} variants, {bad} not ok, {time.time() - t0:.1f}s")
     return 1 if bad else 0
 
